@@ -19,12 +19,12 @@ Theorem C16_reference_to_unfilled_slot :
 Proof. exact reject_ref_unfilled. Qed.
 Print Assumptions C16_reference_to_unfilled_slot.
 
-Theorem C16_datatype_zero : forall lex st, exists e, decode_literal lex (LkDt 0) st = Err e.
+Theorem C16_datatype_zero : forall ig lex st, exists e, decode_literal ig lex (LkDt 0) st = Err e.
 Proof. exact reject_datatype_zero. Qed.
 Print Assumptions C16_datatype_zero.
 
 Theorem C16_datatype_with_disabled_table :
-  forall lex id st, d_data (ds_datatypes st) = [] -> exists e, decode_literal lex (LkDt id) st = Err e.
+  forall ig lex id st, d_data (ds_datatypes st) = [] -> exists e, decode_literal ig lex (LkDt id) st = Err e.
 Proof. exact reject_datatype_disabled. Qed.
 Print Assumptions C16_datatype_with_disabled_table.
 
